@@ -704,3 +704,38 @@ def rounding_count(node, exact_atoms=()):
         memo[n.uid] = r
         return r
     return k(node)
+
+
+# ----------------------------------------------------------------------------------------------------------------- single-precision intermediates in the compiled sources
+def precision_lint(chk, repo, rule, paths, floor_funcs=5):
+    """In the compiled sources every quantity is a C double (or double complex).  A local variable or parameter declared `float` (C single precision, 24-bit significand) that takes
+    part in arithmetic narrows whatever passes through it to ~1e-8 relative accuracy: results are no longer accurate, and scaled arrays no longer restored, to a few ulp.  Module-level
+    `cdef float` thresholds that are only compared against are not arithmetic and are left alone."""
+    import glob, os
+    nf = 0
+    for pat in paths:
+        for path in sorted(glob.glob(os.path.join(repo.root, pat), recursive=True)):
+            rel = os.path.relpath(path, repo.root)
+            mod = repo.by_path(rel)
+            if getattr(mod, 'facts', None) is None:
+                continue
+            offenders = []
+            for fn in [x for x in ast.walk(mod.tree) if isinstance(x, ast.FunctionDef)]:
+                nf += 1
+                types = _c_types(mod, fn)
+                singles = {n_ for n_, t_ in types.items() if ' '.join(str(t_).replace('const ', '').split()).split('[')[0].strip(' *&') in ('float', 'float complex', 'np.float32_t', 'float32_t', 'npy_float32')}
+                if not singles:
+                    continue
+                used = set()
+                for x in ast.walk(fn):
+                    if isinstance(x, (ast.BinOp, ast.AugAssign, ast.UnaryOp)):
+                        for y in ast.walk(x):
+                            if isinstance(y, ast.Name) and y.id in singles: used.add(y.id)
+                    if isinstance(x, ast.Assign) and any(isinstance(t_, ast.Name) and t_.id in singles for t_ in x.targets) and not isinstance(x.value, ast.Constant):
+                        used |= {t_.id for t_ in x.targets if isinstance(t_, ast.Name) and t_.id in singles}
+                for n_ in sorted(used):
+                    offenders.append(f'{fn.name}: `{n_}` is declared {types[n_]} (single precision) and takes part in the arithmetic')
+            chk.ob(rule, f'{rel}: no single-precision (C float) variable takes part in the arithmetic', not offenders, '; '.join(offenders[:3]), rel, key=f'{rule}|{rel}',
+                   method='declared C types of locals and parameters (Cython front-end) x uses in arithmetic')
+    if nf < floor_funcs:
+        raise AnalysisError(f'precision lint for {rule}: only {nf} functions scanned')
